@@ -6,6 +6,7 @@ Driver for C01.  An abstract case is one protocol line
   c01 mode finalNewline header nrec { record }*
 
   mode   = parse | multi | flat | read | readmulti | readflat | readflatgz
+  (also  c01 raw mode text : raw text given to the parser as it is, outside the domain, correspondence only)
   record = name mol(0-3) topo(0/1) division(0-17) date pads originTrail blockLen perLine
            definition bs accession bs version bs keywords bs source bs organism bs
            nrefs { range bs authors bs title bs journal bs pubmed bs remark bs }*
@@ -109,6 +110,9 @@ def parseCase (f : List String) : Option Case := (pCase.run f).map (·.1)
 def caseText (c : Case) : Str := layoutFile c.recs c.lay
 
 def render (f : List String) : List String :=
+  match f with
+  | ["c01", "raw", mode, text] => ["c01", mode, text]     -- raw text (out of the domain; correspondence only)
+  | _ =>
   match parseCase f with
   | some c => ["c01", c.mode, String.ofList (caseText c)]
   | none => ["c01", "bad", ""]
@@ -151,6 +155,13 @@ def zipLay (rs : List GbRec) (ls : List RecLayout) : List (GbRec × RecLayout) :
   | r :: rs' => (r, ls.headD {}) :: zipLay rs' ls.tail
 
 def judge (f out : List String) : Verdict :=
+  match f with
+  | ["c01", "raw", mode, text] =>
+    let m := modelOut mode text.toList
+    let outN := match out with | "panic" :: _ => ["panic"] | "err" :: _ => ["err"] | o => o
+    { corr := outN == m, judge := none, cls := "raw/" ++ mode ++ "/" ++ (m.headD ""),
+      detail := if outN == m then "" else "model: " ++ lineOf (m.map fun x => if x.length > 300 then (x.take 300).toString ++ "…" else x) }
+  | _ =>
   match parseCase f with
   | none => { corr := false, judge := none, cls := "bad-case", detail := "bad case" }
   | some c =>
